@@ -390,18 +390,59 @@ def m_res_map(I, a, e, ci):
 def m_res_map_err(I, a, e, ci):
     v, f = a
     if isinstance(v, Opaque) and v.what == "result":
-        return v
+        info = dict(v.info)
+        info["err"] = I.apply_closure(f, [v.info.get("err", Opaque("error-value"))])
+        return Opaque("result", **info)
     return lift(v, lambda x: Enum(x.path, x.variant, [I.apply_closure(f, x.payload)]) if x.variant == "Err" else x)
 
 
 @model("std::result::Result::<T, E>::ok")
 def m_res_ok(I, a, e, ci):
+    if isinstance(a[0], Opaque) and a[0].what == "result":
+        return a[0]
     return lift(a[0], lambda x: Enum("Option", "Some", x.payload) if x.variant == "Ok" else Enum("Option", "None", []))
 
 
 @model("std::result::Result::<T, E>::is_ok")
 def m_is_ok(I, a, e, ci):
     return BoolV(Cond("is_ok", text=repr(a[0])))
+
+
+@model("std::option::Option::<T>::take", places=(0,))
+def m_opt_take(I, a, e, ci):
+    old = I.deref(a[0].get())
+    a[0].set(Enum("Option", "None", []))
+    return old
+
+
+@model("std::option::Option::<T>::is_some", "std::option::Option::<T>::is_none")
+def m_opt_is(I, a, e, ci):
+    v = a[0]
+    want_some = (ci.get("path") or "").endswith("is_some")
+    if isinstance(v, Enum):
+        return BoolV((v.variant == "Some") == want_some)
+    if isinstance(v, Ite) and isinstance(v.a, Enum) and isinstance(v.b, Enum):
+        c = v.cond if (v.a.variant == "Some") == want_some else v.cond.negate()
+        return BoolV(c)
+    raise Unanalysable(f"is_some/is_none on {v!r}")
+
+
+@model("std::option::Option::<T>::unwrap_or", "std::result::Result::<T, E>::unwrap_or")
+def m_unwrap_or(I, a, e, ci):
+    v, d = a
+    if isinstance(v, Enum):
+        return v.payload[0] if v.variant in ("Some", "Ok") else d
+    if isinstance(v, Ite) and isinstance(v.a, Enum) and isinstance(v.b, Enum):
+        return Ite(v.cond, v.a.payload[0] if v.a.variant in ("Some", "Ok") else d, v.b.payload[0] if v.b.variant in ("Some", "Ok") else d)
+    raise Unanalysable(f"unwrap_or on {v!r}")
+
+
+@model("std::mem::swap", places=(0, 1))
+def m_swap(I, a, e, ci):
+    x, y = I.deref(a[0].get()), I.deref(a[1].get())
+    a[0].set(y)
+    a[1].set(x)
+    return UNIT
 
 
 @model("std::mem::replace", places=(0,))
@@ -441,7 +482,7 @@ def m_max(I, a, e, ci):
     raise Unanalysable(f"max of {x!r}, {y!r}")
 
 
-@model("core::num::<impl usize>::trailing_zeros", "core::num::<impl u32>::leading_zeros", "core::num::<impl usize>::is_power_of_two")
+@model("core::num::<impl usize>::trailing_zeros", "core::num::<impl u32>::leading_zeros", "core::num::<impl usize>::is_power_of_two", "core::num::<impl usize>::leading_zeros", "core::num::<impl u64>::leading_zeros", "core::num::<impl u64>::trailing_zeros", "core::num::<impl u32>::trailing_zeros")
 def m_intfn(I, a, e, ci):
     name = (ci.get("path") or "").split("::")[-1]
     if name == "is_power_of_two":
@@ -594,6 +635,13 @@ def m_take(I, a, e, ci):
     it, n = I.to_iter_or_inf(a[0]), a[1]
     if it.vec is None:
         return IterV(Vec([Seg(n.e, lambda j, it=it: it.infinite(j))]))
+    total = it.vec.length()
+    if not le(total, n.e, I.bounds) and not le(n.e, total, I.bounds) and len(it.vec.nonempty_segs()) == 1:
+        # prefix of a table whose size is not provably sufficient: continue with the requested prefix, but
+        # record it (C17: generator views need a dominating capacity guard; C08: downstream lengths)
+        slog(I, "prefix-unproved", e, False, f"take({sp.expand(n.e)}) of a sequence of length {total}: no guard establishes {sp.expand(n.e)} <= {total}")
+        sg = it.vec.nonempty_segs()[0]
+        return IterV(Vec([Seg(n.e, sg.f)]))
     return IterV(it.vec.take(n.e, I.bounds), it.mut_place)
 
 
@@ -766,7 +814,10 @@ def m_serialize(I, a, e, ci):
         cur.info.setdefault("writes", []).append((mode, val))
         return Opaque("result", ok=UNIT, desc="io-error")
     # fixed-size buffers etc.: the write may fail / truncate
-    w.set(Bytes([("truncated:" + mode, val, repr(cur))]))
+    try:
+        w.set(Bytes([("truncated:" + mode, val, repr(cur))]))
+    except Unanalysable:
+        pass
     return Opaque("result", ok=UNIT, desc="serialize-into-fixed-buffer")
 
 
